@@ -105,6 +105,7 @@ inductive Obs where
   | exitS
   | exitR
   | logged (tid : Tid)                     -- thread `tid` (reader or sender) took the time stamp of a log entry and appended it
+  | enqueued (tid : Tid)                   -- thread `tid` put a command into the send queue (visible at the queue shim only)
   | callRet (tid : Tid)                    -- an API call returned
   | closeRaised (tid : Tid)                -- close() raised (cannot join current thread)
 deriving Repr, DecidableEq
@@ -272,7 +273,7 @@ def stepU (P : Params) (s : St) (t : Tid) : Option (St × Option Obs) :=
   | .submitting text =>
     if s.published && s.queueMade then
       let s' := { s with queue := s.queue ++ [.cmd s.nextId text], submitted := s.submitted ++ [(t, s.nextId, text)], nextId := s.nextId + 1 }
-      some (setUpc s' t .returning, none)
+      some (setUpc s' t .returning, some (.enqueued t))
     else some (setUpc s t .returning, none)               -- not connected: silent no-op
   | .returning => some (setUpc s t .idle, some (.callRet t))
   | .closing pc => stepClose P s t pc
